@@ -140,7 +140,15 @@ struct Run : ContBase {
         std::multiset<std::pair<std::string, std::string>> want, got;
         for (auto &kv : m) want.insert({kv.first.substr(0, 16), kv.second});
         int idx = 0; qhasharr_obj_t o; size_t steps = 0;
+        bool lookups = !m.empty() && s.chance(1, 3);     // read-only calls between the steps: the table stays unmodified
         while (qhasharr_getnext(h, &o, &idx)) {
+            if (lookups && s.chance(1, 2)) {
+                auto gi = m.begin(); std::advance(gi, s.range(0, (long)m.size() - 1));
+                size_t gsz = 0; void *p = qhasharr_get_by_obj(h, gi->first.data(), gi->first.size(), &gsz);
+                bool gok = p && gsz == gi->second.size() && memcmp(p, gi->second.data(), gsz) == 0;
+                free(p);
+                if (!gok) { free(o.name); free(o.data); c.fail(cls, cls == FUNC ? "hasharr:get-bytes" : "hasharr:second-handle-get", "%s: get between two steps of a walk returned the wrong value for key %s", who, hexs(gi->first).c_str()); }
+            }
             if (++steps > m.size() + 4) { free(o.name); free(o.data); c.fail(cls, "hasharr:walk-endless", "%s: walk returns more entries than keys", who); }
             got.insert({std::string((char *)o.name, o.namesize), std::string((char *)o.data, o.datasize)});
             if (cls == FUNC) { see(o.data, o.datasize); give_back(o.name, std::string((char *)o.name, o.namesize), "getnext.name"); give_back(o.data, std::string((char *)o.data, o.datasize), "getnext.data"); }
